@@ -5,7 +5,7 @@ PLAN = {
         level="exploration",
         rule=("cases = (message type enumerated from the app's interface registry that carries an authority and has a router handler, "
               "payload from a valid-by-construction template built on the live state or from reflection fill, non-governance authority of one of "
-              "10 shapes); non-trivial = the same payload SUCCEEDS under the governance authority (so the authority guard, not validation, is what "
+              "15 shapes, among them look-alike encodings: the governance bytes as suffix or prefix of a longer account, truncated, other prefix, hex, surrounding space); non-trivial = the same payload SUCCEEDS under the governance authority (so the authority guard, not validation, is what "
               "rejected it) and the drawn authority is not the governance address; distinct = distinct (type, chain, authority shape, payload mode)"),
         assumptions=["baseapp discards a failed message's writes (reproduced by the harness: cache context written only on success)",
                      "a case-variant of the governance bech32 string counts as the governance authority (x/evm compares case-insensitively)"],
@@ -14,7 +14,7 @@ PLAN = {
     ),
     "C03": dict(
         level="exploration",
-        rule=("pairs (c, c') of valid claims of one of the 6 claim types where c' differs from c in exactly one execution-relevant field, "
+        rule=("pairs (c, c') of valid claims of one of the 6 claim types where c' differs from c in exactly one execution-relevant field (deposit targets also from a pool of meaningful module / chain / IBC routes in every spelling the target parser knows), "
               "or re-splits two adjacent free-form fields, or swaps/moves list elements; oracle: ClaimHash(c) != ClaimHash(c'), and for a quarter "
               "of the parked/registered types additionally a 3-oracle tally on the real keeper (votes A,B,B: nothing observed before two oracles agree, "
               "applied claim == B field for field); every generated pair is non-trivial; distinct = distinct (type, mutation kind+field, stateful)"),
@@ -27,7 +27,7 @@ PLAN = {
         rule=("(A) inputs a peer can send: (i) a message of any registered type filled by reflection with extreme/absent values, marshalled and mutated at the "
               "protobuf wire level (fields dropped, emptied, duplicated, replaced by hostile text), wrapped in a tx and run through TxDecoder, every message's "
               "ValidateBasic, signer extraction and the ante handler in CheckTx mode; (ii) raw tx bytes; (iii) precompile call data: every method selector of both "
-              "precompiles with arbitrary, word-shaped, truncated and length-lying tails through a real EVM tx; (iv) hostile strings into the target/address parsers. "
+              "precompiles with arbitrary, word-shaped, truncated and length-lying tails and with ABI-well-formed arguments generated from the method's input types (independent array lengths, boundary numbers up to 2^256-1, hostile strings) through a real EVM tx; (iv) hostile strings into the target/address parsers. "
               "Oracle: no panic (a panic recovered by baseapp/ante as ErrPanic counts as a panic). non-trivial = the input was decoded into typed messages / reached a "
               "method selector / parser; distinct = distinct (kind, type or method, outcome class). (B) see fee_rule keys."),
         assumptions=["Must*-style helpers that panic by contract are only reached with validated input (they are not called directly)"],
@@ -88,7 +88,7 @@ PLAN = {
         level="exploration",
         rule=("histories (<= 30 ops quick / 80 thorough) of staking-precompile calls by 3 EOAs and a contract over 3 validators: delegateV2, undelegateV2, redelegateV2, withdraw, approveShares, transferShares, transferFromShares "
               "(sender == recipient explicitly generated; recipient with/without delegation; all / half / all-1 / given share amounts, odd wei), interleaved with real reward allocation and real validator slashing. Oracle: per transfer exact share movement, "
-              "validator tokens/shares untouched, allowance reduced exactly, pending rewards of both parties paid; after every step delegations sum to validator shares and every registered crisis invariant (staking, distribution, bank, gov) holds; at the end every delegator withdraws and fully undelegates. "
+              "validator tokens/shares untouched, allowance reduced exactly, pending rewards of both parties paid, a transfer (by the owner or by a spender) of shares whose owner has an unmatured redelegation into that validator is refused (composite redelegate / approve / transferFrom on the destination validator); after every step delegations sum to validator shares and every registered crisis invariant (staking, distribution, bank, gov) holds; at the end every delegator withdraws and fully undelegates. "
               "non-trivial = a transfer after rewards accrued, or to oneself, or after a slash"),
         assumptions=["withdraw addresses are the delegators' own addresses", "the SDK's max-unbonding-entries limit is respected in the final undelegation"],
         quick=[dict(test="TestC11", cases=6400, shards=16, timeout=900)],
@@ -127,12 +127,12 @@ PLAN = {
     ),
     "C08": dict(
         level="exploration",
-        rule=("(A) histories (<= 30 ops) of convert-coin, convert-erc20, convert-denom (every target), ERC-20 transfers, register-coin, register-erc20, toggle and alias updates by 4 holders over FX/WFX, a module-owned pair, an externally-owned pair and pairs registered during the history; "
+        rule=("(A) histories (<= 30 ops) of convert-coin, convert-erc20, convert-denom (every target; receivers are users and module accounts; users hold legacy per-chain denominations of the module-owned pair; composite base->alias->base), ERC-20 transfers, register-coin, register-erc20, toggle and alias updates by 4 holders over FX/WFX, a module-owned pair, an externally-owned pair and pairs registered during the history; "
               "(B) EVM programs (2..6 steps, one contract, one token) mixing token.transfer / approve / transferFrom / transfer-to-module with crossChain, bridgeCall, cancelSendToExternal, increaseBridgeFee and executeClaim of a deposit to the contract itself, each step caught or propagated, frame returning or reverting. "
               "Invariants after every step / transaction: module-owned pair escrow == ERC-20 total supply (FX: coins held by the wrapper contract), externally-owned pair: ERC-20 escrowed by the module == coin supply over base + bridge denominations, balances over the closed holder set == total supply, "
               "pair / by-denom / by-erc20 / alias indexes and bank metadata describe one set of pairs; a conversion moves exactly the amount from sender to receiver and nothing else. non-trivial: (A) conversions over >= 2 pair kinds; (B) the program writes the token before a precompile call converts it in the same successful transaction"),
         assumptions=["the ERC-20 holder set is closed by construction (the generator only targets known addresses)"],
-        quick=[dict(test="TestC08A", cases=800, shards=16, timeout=900), dict(test="TestC08B", cases=1600, shards=16, timeout=900)],
+        quick=[dict(test="TestC08A", cases=3200, shards=16, timeout=900), dict(test="TestC08B", cases=1600, shards=16, timeout=900)],
         thorough=[dict(test="TestC08A", cases=8000, shards=16, timeout=3400, shrink=120), dict(test="TestC08B", cases=16000, shards=16, timeout=3400, shrink=120)],
     ),
     "C13": dict(
@@ -170,7 +170,7 @@ PLAN = {
     ),
     "C17": dict(
         level="exploration",
-        rule=("block histories (the C07 alphabet, <= 45 operations quick / 90 thorough, on fresh chains with 1-2 bridge chains and 2-4 oracles each): oracle claims with deferred execution, sends, batches, bridge calls, per-oracle confirmations, oracle-list updates, governance proposals of ten kinds with votes by a large delegator and by validator operators, erc20 conversions, account migration with delegation and unbonding, "
+        rule=("block histories (the C07 alphabet, <= 45 operations quick / 90 thorough, on fresh chains with 1-2 bridge chains and 2-4 oracles each; composite: batches of 2-3 tokens, then one event far beyond every timeout; the trace includes every message-level result, oracle votes inside an observed claim too): oracle claims with deferred execution, sends, batches, bridge calls, per-oracle confirmations, oracle-list updates, governance proposals of ten kinds with votes by a large delegator and by validator operators, erc20 conversions, account migration with delegation and unbonding, "
               "signed EVM transactions (crossChain with ERC-20 and with native value, staking delegateV2, token transfer) and signed Cosmos transactions included in blocks, absent validators, time jumps of 5 s .. 22 days, real FinalizeBlock + Commit. Every history is executed on 3 replicas quick / 4 thorough: fresh chains in the generating process plus one in a re-executed child process with GOMAXPROCS=1, another TZ and GOGC "
               "(wall clock differs by construction; Go randomises every map range, so each replica has its own map orders). Oracle: per block equal application hash, FinalizeBlock response hash, transaction results (code, codespace, gas, data, log, events) and ordered event list; equal outcome, data and events of every operation applied to the block being built. "
               "non-trivial = >= 3 blocks and a batch, bridge call, validator-operator vote, migration or ended proposal in the history"),
